@@ -33,6 +33,12 @@ CRULE = {"never": "Never", "once": "Once", "always": "Always", "update": "Update
 
 # ---------------------------------------------------------------- Coq rendering
 def c_val(v):
+    if isinstance(v, dict) and "p" in v:
+        return "(VP %s %s)" % (cz(v["p"][0]), cz(v["p"][1]))
+    if isinstance(v, dict) and "m" in v:
+        return "(VM %s)" % clist(["(%s, %s)" % (cz(k), cz(x)) for k, x in v["m"]], "(Z * Z)")
+    if isinstance(v, dict) and "dq" in v:
+        v = v["dq"]
     if isinstance(v, list):
         return "(VL %s)" % clist([cz(x) for x in v], "Z")
     return "(VZ %s)" % cz(v)
@@ -82,6 +88,8 @@ def c_op(op):
         return "(Push %s %s)" % (cnat(op[1]), c_dentry(op[2]))
     if o == "append":
         return "(Append %s %s %s)" % (cnat(op[1]), cz(op[2]), cz(op[3]))
+    if o == "put":
+        return "(Put %s %s %s %s)" % (cnat(op[1]), cz(op[2]), cz(op[3]), cz(op[4]))
     return {"run": "Run", "start": "Start", "stop": "Stop"}[o]
 
 
@@ -166,7 +174,19 @@ def spec_check(case, res):
         return ("header written into a pre-existing file", False)
     recs = [l for l in new if l[0] == "R"]
     # replay the history keeping the ideal expectation per rule
-    shares = [{"data": dict((k, list(v) if isinstance(v, list) else v) for k, v in sh["data"]),
+    def pyval(v):     # list / deque -> list (a FIFO queue), mapping -> insertion-ordered dict
+        if isinstance(v, list):
+            return list(v)
+        if isinstance(v, dict) and "dq" in v:
+            return list(v["dq"])
+        if isinstance(v, dict) and "m" in v:
+            return dict((k, x) for k, x in v["m"])
+        return v
+
+    def canon(v):
+        return {"m": [[k, x] for k, x in v.items()]} if isinstance(v, dict) else v
+
+    shares = [{"data": dict((k, pyval(v)) for k, v in sh["data"]),
                "order": [k for k, _ in sh["data"]], "deck": []} for sh in case["shares"]]
     loggee_idx = set(s for _, s, _ in case["loggees"])
     tick = 0
@@ -211,6 +231,10 @@ def spec_check(case, res):
                             for x in v:
                                 exp.append((tick, [x]))
                             sh["data"][k] = []
+                        elif isinstance(v, dict):      # the promise includes the order: FIFO = insertion order
+                            for mk, mv in v.items():
+                                exp.append((tick, [{"p": [mk, mv]}]))
+                            sh["data"][k] = {}
                         else:
                             exp.append((tick, [v]))
             return
@@ -240,7 +264,7 @@ def spec_check(case, res):
             for k, v in op[2]:
                 if k not in sh["data"]:
                     sh["order"].append(k)
-                sh["data"][k] = list(v) if isinstance(v, list) else v
+                sh["data"][k] = pyval(v)
             if o == "write" and op[1] in loggee_idx:
                 pending = True
                 if ran_this_tick:
@@ -251,6 +275,10 @@ def spec_check(case, res):
             v = shares[op[1]]["data"].get(op[2])
             if isinstance(v, list):
                 v.append(op[3])
+        elif o == "put":
+            v = shares[op[1]]["data"].get(op[2])
+            if isinstance(v, dict):
+                v[op[3]] = op[4]
         elif o == "start":
             if started:
                 restarted = True
@@ -289,7 +317,7 @@ def spec_check(case, res):
         if rule == "deck" and sh["deck"] != shares[si]["deck"]:
             return ("deck after the history is %r, expected %r" % (sh["deck"], shares[si]["deck"]), False)
         if rule == "streak":
-            want = [[k, shares[si]["data"][k]] for k in shares[si]["order"]]
+            want = [[k, canon(shares[si]["data"][k])] for k in shares[si]["order"]]
             if sh["data"] != want:
                 return ("streak share after the history is %r, expected %r" % (sh["data"], want), False)
     return None
@@ -304,10 +332,18 @@ def gen_case(rng, rule, late_ok=True, size=12):
         data = [[k, rng.randint(0, 3)] for k in range(nf)]
         shares.append({"data": data, "stamped": rng.random() < 0.6})
     if rule == "streak":
-        # the streak share: its drained field holds a list (or, sometimes, a scalar)
-        if rng.random() < 0.85:
-            shares[0]["data"] = [[0, [rng.randint(0, 9) for _ in range(rng.randint(0, 3))]]] + \
-                                [[k, rng.randint(0, 3)] for k in range(1, rng.randint(1, 3))]
+        # the streak share: its drained field holds a list / deque / dict / OrderedDict (or, sometimes, a scalar)
+        r = rng.random()
+        if r < 0.9:
+            init = [rng.randint(0, 9) for _ in range(rng.randint(0, 3))]
+            kind = rng.choice(["list", "dq", "m", "m", "od"])
+            if kind == "list":
+                q = init
+            elif kind == "dq":
+                q = {"dq": init}
+            else:
+                q = {"m": [[10 + j, x] for j, x in enumerate(init)], "od": kind == "od"}
+            shares[0]["data"] = [[0, q]] + [[k, rng.randint(0, 3)] for k in range(1, rng.randint(1, 3))]
         loggees = [[0, 0, rng.choice([[], [0], [0, 1]])]]
     elif rule == "deck":
         loggees = [[0, 0, rng.choice([[0], [0, 1], [1, 0, 2]])]]
@@ -354,9 +390,12 @@ def rnd_write(rng, shares, rule):
         if rng.random() < 0.8:
             return ["push", 0, {"m": [[k, rng.randint(0, 9)] for k in rng.sample(range(3), rng.randint(0, 3))]}]
         return ["push", 0, {"o": rng.randint(0, 9)}]
-    if rule == "streak" and rng.random() < 0.6:
+    if rule == "streak" and rng.random() < 0.7:
+        v0 = shares[0]["data"][0][1] if shares[0]["data"] else None
+        if isinstance(v0, dict) and "m" in v0:
+            return ["put", 0, 0, rng.randint(0, 30), rng.randint(0, 9)]
         return ["append", 0, 0, rng.randint(0, 9)]
-    keys = [k for k, v in shares[s]["data"] if not isinstance(v, list)]
+    keys = [k for k, v in shares[s]["data"] if not isinstance(v, (list, dict))]
     if rng.random() < 0.15:
         keys = keys + [rng.randint(3, 4)]     # creates a new field
     if not keys:
@@ -376,6 +415,30 @@ def exhaustive_cases(depth):
             ops = [["start"]] + [alphabet[i] for i in body] + [["stop"]]
             out.append({"shares": [{"data": [[0, 1]], "stamped": True}], "rule": rule,
                         "loggees": [[0, 0, []]], "pre": None, "ops": ops})
+    return out
+
+
+def streak_bursts(rng, n):
+    """streak on a list / deque / dict / OrderedDict value with 2..4 items queued between logger runs"""
+    out = []
+    for kind in ("list", "dq", "m", "od"):
+        for _ in range(n):
+            q = [] if kind == "list" else {"dq": []} if kind == "dq" else {"m": [], "od": kind == "od"}
+            ops, nxt = [["start"]], 0
+            for _ in range(rng.randint(2, 5)):
+                ops.append(["tick"])
+                for _ in range(rng.choice([0, 1, 2, 3, 4])):
+                    nxt += 1
+                    if kind in ("m", "od"):
+                        ops.append(["put", 0, 0, rng.choice([nxt, nxt, 50 - nxt, rng.randint(1, 6)]), rng.randint(0, 9)])
+                    else:
+                        ops.append(["append", 0, 0, rng.randint(0, 9)])
+                ops.append(rng.choice([["run"], ["run"], ["stop"]]))
+                if ops[-1] == ["stop"]:
+                    ops.append(["start"])
+            ops.append(["stop"])
+            out.append({"shares": [{"data": [[0, q], [1, 7]], "stamped": True}], "rule": "streak",
+                        "loggees": [[0, 0, rng.choice([[], [0]])]], "pre": None, "ops": ops})
     return out
 
 
@@ -417,13 +480,15 @@ def run(ctx):
     for rule in RULES:
         for _ in range(ctx.n(150, 2000)):
             cases.append(("rnd", gen_case(ctx.rng, rule)))
+    for c in streak_bursts(ctx.rng, ctx.n(12, 150)):
+        cases.append(("burst", c))
     cases.append(("witness", WITNESS))
 
     pairs, metas = [], []
     for kind, case in cases:
         res = harness.run_case(case, ctx.work)
         nrun = sum(1 for o in case["ops"] if o[0] in ("run", "start", "stop"))
-        nwr = sum(1 for o in case["ops"] if o[0] in ("write", "change", "push", "append"))
+        nwr = sum(1 for o in case["ops"] if o[0] in ("write", "change", "push", "append", "put"))
         ctx.case({"case": case, "file": res["file"]}, nontrivial=nrun >= 2 and nwr >= 1,
                  kind="%s:%s" % (kind, case["rule"]))
         try:
